@@ -181,12 +181,36 @@ def r3_reset_all(c, facts):
         c.ok(R, {'diagnostics': 'takes the pending errors'})
     else:
         c.bad(R, 'errors-not-taken', 'Workspace::diagnostics no longer takes (clears) the pending errors: they are published again after every refresh')
-    # the returned map is the seeded one
-    ret = MF.slice_back(dg, 0, idx)
-    if any(P.strip(n).endswith('Iterator::collect') for n, _, _ in ret['calls']):
+    # the returned map is the seeded one - at every successful return
+    bad_ok = []
+    nok = 0
+    for b, blk in dg.blocks():
+        for s in blk['stmts']:
+            if s['s'] == 'assign' and s['place']['l'] == 0 and not s['place']['proj'] and s['rv']['r'] == 'aggr' and s['rv'].get('variant') == 'Ok':
+                nok += 1
+                op = s['rv']['ops'][0]
+                nm = {P.strip(n).split('::')[-1] for n, _, _ in MF.slice_back(dg, op['l'], idx)['calls']} if 'l' in op else set()
+                if 'collect' not in nm and 'from_iter' not in nm:
+                    bad_ok.append(s.get('ln'))
+    if nok and not bad_ok:
         c.ok(R, {'diagnostics': 'returns the seeded map'})
+    elif bad_ok:
+        c.bad(R, 'diagnostics-returns-other-map', 'Workspace::diagnostics can return a map that is not the one seeded from docs (line %s): the documents are not reset / republished on that path, the client keeps stale ranges' % bad_ok)
     else:
         c.bad(R, 'diagnostics-returns-other-map', 'Workspace::diagnostics does not return the map seeded from docs')
+    # the map is only added to (entry API): nothing can overwrite a list of diagnostics that was just computed
+    over = []
+    for b, t in dg.calls():
+        cal = callee_of(t)
+        if not cal or not t['args'] or 'HashMap<oal_model::locator::Locator, std::vec::Vec<lsp_types::Diagnostic>>' not in t['args'][0].get('ty', ''):
+            continue
+        nm = P.strip(cal['def']).split('::')[-1]
+        if nm in ('extend', 'insert', 'remove', 'clear', 'retain', 'drain', 'extend_one', 'remove_entry'):
+            over.append(nm)
+    if over:
+        c.bad(R, 'diagnostics-map-overwritten:%s' % ','.join(sorted(set(over))), 'Workspace::diagnostics changes the result map with %s after seeding it: diagnostics computed for a document can be replaced by an empty list' % sorted(set(over)))
+    else:
+        c.ok(R, {'diagnostics': 'the seeded map is only added to through entry()'})
     # the pending errors accumulate over every folder evaluated by one refresh: only diagnostics() empties them
     clearers = []
     for fn in sorted(facts.fns.values(), key=lambda f: f.qname):
@@ -401,6 +425,8 @@ def r6_doc_sync(c, facts):
 
 
 def run(c, facts):
+    import c18
+    c.run(lambda c: c18.r7_no_reject(c, facts, rule='C15.R8'))
     c.run(r6_doc_sync, facts)
     c.run(r1_set_stale, facts)
     c.run(r2_refresh_first, facts)
